@@ -64,6 +64,15 @@ impl Command for AppendCommand {
 
         let topic: String = call.req(engine_state, stack, 0)?;
         let meta: Option<Value> = call.get_flag(engine_state, stack, "meta")?;
+        if let Some(meta) = &meta {
+            // the handler stamps handler_id / frame_id into meta: it has to be a record
+            if meta.as_record().is_err() {
+                return Err(ShellError::TypeMismatch {
+                    err_message: "Meta must be a record".to_string(),
+                    span: call.span(),
+                });
+            }
+        }
         let ttl_str: Option<String> = call.get_flag(engine_state, stack, "ttl")?;
 
         let ttl = ttl_str
